@@ -725,6 +725,17 @@ impl World {
                 guarded("DynamicRoot::drop", move || drop(h))?;
                 self.sh.handles[op.a as usize] = None;
             }
+            K::PDropH => {
+                let h = self.hs[op.a as usize].take();
+                let r = guarded("DynamicRoot::drop during unwinding", move || {
+                    let _h = h;
+                    injected_panic()
+                })?;
+                if !matches!(r, Caught::Injected) {
+                    viol!("c11.swallowed", "panic did not propagate");
+                }
+                self.sh.handles[op.a as usize] = None;
+            }
             K::FetchRoot => {
                 let (t, set, _) = self.sh.handles[op.a as usize].unwrap();
                 self.with_root(0, |w, _, root, _| {
@@ -750,7 +761,7 @@ impl World {
                 self.sh.objs[op.b as usize].s[op.c as usize] = Some(t);
             }
             // ------------------------------------------------------------------ finalization
-            K::FinQuery | K::FinRes | K::FinResStore | K::FinGcRes | K::PFin | K::FinResLeaf => return self.finalize(op),
+            K::FinQuery | K::FinRes | K::FinResStore | K::FinGcRes | K::PFin | K::FinResLeaf | K::FinResChild => return self.finalize(op),
             // ------------------------------------------------------------------ collector
             K::CycleStep => {
                 self.norm(op.a);
@@ -982,6 +993,17 @@ impl World {
                     }
                     if res.is_some() {
                         newly = Some(t);
+                    }
+                }
+                if op.k == K::FinResChild {
+                    let wk = this.node(&m, op.a).w.get().unwrap();
+                    let t = this.sh.objs[op.a as usize].w.unwrap();
+                    if let Some(g) = wk.upgrade(fc) {
+                        if let (Some(cid), Some(c)) = (this.sh.objs[t as usize].s[0], g.s[0].get()) {
+                            was_dead = Gc::is_dead(fc, c);
+                            Gc::resurrect(fc, c);
+                            newly = Some(cid);
+                        }
                     }
                 }
                 match op.k {
